@@ -115,8 +115,8 @@ func drawScenario(s *Sim, r *Rng) *Scenario {
 	p := &MPayload{}
 	g.genRoute(s, p, sc.Denom)
 	A := g.genAmount(sc.Denom, nil)
-	if A.Cmp(big.NewInt(2000)) < 0 {
-		A = big.NewInt(int64(2000 + r.Intn(1000000)))
+	if A.Cmp(big.NewInt(2000)) < 0 || A.Cmp(big.NewInt(100_000_000_000)) > 0 {
+		A = big.NewInt(int64(2000 + r.Intn(1000000))) // stay below the CCTP per-message burn limit
 	}
 	sc.Amount = A.String()
 	p.HasFee, p.Fees = g.genFees(s, A)
